@@ -62,6 +62,12 @@ class RealRestoreWriteFileSystem(RestoreWriteFileSystem):
         return fs.mkdirs(path)
 
     def move(self, path, dest):
+        # reached with an existing destination only under --overwrite: a
+        # non-directory (symlinks included) is replaced, not moved into
+        if os.path.lexists(path) and (
+                os.path.islink(dest) or (os.path.lexists(dest)
+                                         and not os.path.isdir(dest))):
+            os.remove(dest)
         return fs.move(path, dest)
 
     def remove_file(self, path):
